@@ -274,6 +274,13 @@ def shrink_case(lines, still_fails, budget=200):
 
 # ----------------------------------------------------------------------------- verdict / evidence
 
+def _hist(xs):
+    h = {}
+    for x in xs:
+        h[x] = h.get(x, 0) + 1
+    return h
+
+
 def load_known():
     p = os.path.join(VERIF, "known_findings.json")
     if not os.path.exists(p):
@@ -388,6 +395,7 @@ def main(argv):
         "disagreements_checked": stats["evaluations"], "disagreements": len(disagreements),
         "distribution": stats["dist"],
         "known_findings_hit": sorted(known_hits),
+        "oracle_violation_causes": _hist([str(v.get("cause")) for v in oracle_viol]),
         "harness_build_ok": ok,
         "explanation": getattr(mod, "EXPLANATION", ""),
     }
@@ -399,7 +407,7 @@ def main(argv):
         print(l)
     print(f"{pid} {a.tier}: obligations {lres['discharged']}/{lres['obligations']}, cases {stats['evaluations']} "
           f"(nontrivial {stats['distinct_nontrivial']}), disagreements {len(disagreements)}, "
-          f"oracle violations {len(oracle_viol)}, {ev['wall_s']} s -> exit {exit_code}")
+          f"oracle violations {len(oracle_viol)} {_hist([str(v.get('cause')) for v in oracle_viol]) if oracle_viol else ''}, {ev['wall_s']} s -> exit {exit_code}")
     return exit_code
 
 
